@@ -66,6 +66,8 @@ type Conn struct {
 	OnRead     func(n int)
 	Quiet      func() bool // when it returns true no planned or random fault is injected
 	Faulted    bool        // an injected terminal fault (reset, eof, epipe, closed, short-write) fired on this endpoint
+
+	rdDeadline, wrDeadline time.Time
 }
 
 func sysErr(op string, errno syscall.Errno) error {
@@ -167,10 +169,14 @@ func (c *Conn) Read(p []byte) (int, error) {
 		return 0, nil
 	}
 	c.S.WaitUntil("read:"+c.Name, func() bool {
-		return len(c.rd.buf) > 0 || c.rd.wclosed || c.rd.reset || c.local || c.dead != nil
+		return len(c.rd.buf) > 0 || c.rd.wclosed || c.rd.reset || c.local || c.dead != nil || expired(c.rdDeadline)
 	})
 	if c.local {
 		return 0, closedErr("read")
+	}
+	if len(c.rd.buf) == 0 && !c.rd.wclosed && !c.rd.reset && c.dead == nil && expired(c.rdDeadline) {
+		c.S.Fault("read-deadline")
+		return 0, timeoutErr{"read"}
 	}
 	if c.dead != nil {
 		return 0, c.dead
@@ -283,10 +289,14 @@ func (c *Conn) Write(p []byte) (int, error) {
 	if c.EP.Capacity > 0 && len(c.wr.buf) > 0 && len(c.wr.buf)+len(p) > c.EP.Capacity {
 		c.S.Faults["backpressure"]++
 		c.S.WaitUntil("write-full:"+c.Name, func() bool {
-			return len(c.wr.buf) == 0 || len(c.wr.buf)+len(p) <= c.EP.Capacity || c.wr.rclosed || c.local || c.dead != nil
+			return len(c.wr.buf) == 0 || len(c.wr.buf)+len(p) <= c.EP.Capacity || c.wr.rclosed || c.local || c.dead != nil || expired(c.wrDeadline)
 		})
 		if c.local {
 			return 0, closedErr("write")
+		}
+		if expired(c.wrDeadline) && c.dead == nil && !c.wr.rclosed && !(len(c.wr.buf) == 0 || len(c.wr.buf)+len(p) <= c.EP.Capacity) {
+			c.S.Fault("write-deadline")
+			return 0, timeoutErr{"write"}
 		}
 		if c.dead != nil {
 			return 0, c.dead
@@ -295,6 +305,10 @@ func (c *Conn) Write(p []byte) (int, error) {
 			c.kill(sysErr("write", syscall.EPIPE), false)
 			return 0, c.dead
 		}
+	}
+	if expired(c.wrDeadline) {
+		c.S.Fault("write-deadline")
+		return 0, timeoutErr{"write"}
 	}
 	c.wr.buf = append(c.wr.buf, p...)
 	return len(p), nil
@@ -333,11 +347,40 @@ type Addr string
 func (a Addr) Network() string { return "sim" }
 func (a Addr) String() string  { return string(a) }
 
-func (c *Conn) LocalAddr() net.Addr                { return Addr(c.Name) }
-func (c *Conn) RemoteAddr() net.Addr               { return Addr(c.Name + ".peer") }
-func (c *Conn) SetDeadline(t time.Time) error      { return nil }
-func (c *Conn) SetReadDeadline(t time.Time) error  { return nil }
-func (c *Conn) SetWriteDeadline(t time.Time) error { return nil }
+func (c *Conn) LocalAddr() net.Addr  { return Addr(c.Name) }
+func (c *Conn) RemoteAddr() net.Addr { return Addr(c.Name + ".peer") }
+
+// Deadlines are honoured on the simulated clock: a Read that finds no data (or a Write that finds no room) when its
+// deadline has passed fails with a timeout error, like a real connection; a zero time clears the deadline.
+func (c *Conn) SetDeadline(t time.Time) error {
+	_ = c.SetReadDeadline(t)
+	return c.SetWriteDeadline(t)
+}
+
+func (c *Conn) SetReadDeadline(t time.Time) error {
+	c.rdDeadline = t
+	if !t.IsZero() {
+		c.S.Deadline(t)
+	}
+	return nil
+}
+
+func (c *Conn) SetWriteDeadline(t time.Time) error {
+	c.wrDeadline = t
+	if !t.IsZero() {
+		c.S.Deadline(t)
+	}
+	return nil
+}
+
+func expired(t time.Time) bool { return !t.IsZero() && !time.Now().Before(t) }
+
+type timeoutErr struct{ op string }
+
+func (e timeoutErr) Error() string   { return e.op + " sim: i/o timeout" }
+func (e timeoutErr) Timeout() bool   { return true }
+func (e timeoutErr) Temporary() bool { return true }
+func (e timeoutErr) Unwrap() error   { return os.ErrDeadlineExceeded }
 
 // Listener is a simulated net.Listener.
 type Listener struct {
